@@ -117,10 +117,25 @@ def c20_1(ctx, r):
                 pd = ctx.pdom(fn)
                 r.check(node.id in pd.get(cfg.entry.id, set()) and not cfg.in_loop(node), "sample count incremented exactly once per update", key_of(fn, "count"), fn.loc(a),
                         "self._count is not incremented exactly once per update_resource_stats call: the mean is wrong")
-    # finalize divides sum by count
+    # finalize divides each sum by the counter that is advanced together with that sum
     fin = ctx.ix.lookup_method(cls, "finalize")
-    ok = any(isinstance(n, ast.BinOp) and isinstance(n.op, ast.Div) and ast.unparse(n.right) == "self._count" for n in iter_own(fin.node))
-    r.check(ok, "average = sum / sample count", key_of(fin, "average"), fin.loc(), "finalize does not compute average as sum / self._count")
+    want = {"self._summaries": "self._count", "self._process_summaries": "self._process_sample_count[process_name]"}
+    seen = set()
+    for n in iter_own(fin.node):
+        if isinstance(n, ast.Assign) and len(n.targets) == 1:
+            base, keys = _subscript_key_path(n.targets[0])
+            if keys and isinstance(keys[0], ast.Constant) and keys[0].value == "average" and base in want:
+                seen.add(base)
+                v = n.value
+                okd = isinstance(v, ast.BinOp) and isinstance(v.op, ast.Div) and ast.unparse(v.right) == want[base] and ast.unparse(v.left) == "val"
+                r.check(okd, f"{base}: average = sum / {want[base]}", key_of(fin, f"{base} average divisor"), fin.loc(n),
+                        f"{base}['average'] is computed as `{ast.unparse(v)}`; the sum it divides was accumulated once per `{want[base]}` increment, so any other divisor gives a wrong mean "
+                        "(a process that was not sampled in every interval gets too small an average)", "report the true minimum, maximum and mean of the samples taken")
+    r.check(seen == set(want), "both average tables are computed in finalize", key_of(fin, "average tables"), fin.loc(), f"average computed for {sorted(seen)} only")
+    # the per-process counter advances exactly where the per-process sum does
+    src = ast.unparse(fn.node)
+    r.check("self._process_sample_count[process_name] += 1" in src and "self._process_sample_count[process_name] = 1" in src, "the per-process sample counter advances with the per-process sum", key_of(fn, "process sample count"), fn.loc(),
+            "the per-process sample counter is not advanced together with the per-process sum")
 
 
 def _cmp_extreme(test):
@@ -305,6 +320,25 @@ def c20_4(ctx, r):
             r.check(ok, "consolidation only when the consolidated directory is empty", key_of(init, "reconsolidate"), s.loc,
                     "consolidation runs although consolidated files exist: events are appended a second time",
                     "consolidating again does not change it", guards=sorted(("" if p else "not ") + f for f, p in forms))
+    # rows appended inside a loop must be fresh objects (an object created outside the loop and mutated inside is
+    # appended repeatedly: every row ends up with the fields of the last one)
+    svf = ctx.fn("EventsSummary._save_events_summary", "C20.4")
+    cfgs = ctx.cfg(svf)
+    for n in cfgs.nodes:
+        for c in cfgs.calls_at(n):
+            if isinstance(c.func, ast.Attribute) and c.func.attr == "append" and c.args and isinstance(c.args[0], ast.Name):
+                v = c.args[0].id
+                loops = ctx.enclosing(svf, c, (ast.For,))
+                if not loops:
+                    continue
+                inner = loops[0]
+                defs = ctx.rd(svf).reaching(n, v)
+                outside = [d for d in defs if not any(l is inner for l in ctx.enclosing(svf, cfgs.nodes[d].stmt, (ast.For,)))]
+                mutated = any(isinstance(x, ast.Call) and isinstance(x.func, ast.Attribute) and isinstance(x.func.value, ast.Name) and x.func.value.id == v and x.func.attr in ("update", "setdefault", "pop", "clear")
+                              or (isinstance(x, ast.Subscript) and isinstance(x.ctx, ast.Store) and isinstance(x.value, ast.Name) and x.value.id == v) for x in ast.walk(inner))
+                r.check(not (outside and mutated), f"`{ast.unparse(c)}`: the appended row is created inside the loop that appends it", key_of(svf, f"shared row object {v}"), svf.loc(c),
+                        f"`{v}` is created outside the innermost loop, mutated inside it and appended on every iteration: all rows of one event are the same object and carry the fields of the last process",
+                        "appears exactly once in the consolidated event summary with all fields intact")
     # save: every non-resource event list is written in full
     sv = ctx.fn("EventsSummary._save_events_summary", "C20.4")
     comps = [n for n in iter_own(sv.node) if isinstance(n, ast.ListComp) and "to_dict" in ast.unparse(n.elt)]
